@@ -133,7 +133,7 @@ class C06(Prop):
   lean_module = 'DK.Props.C06'
   uses_t1 = True      # T1v regenerates DK/Gen/Vec.lean from the current source before the bridge is audited
   bridge = ['DK.BridgeVec.Device_constraints_jac0', 'DK.BridgeVec.Device_constraints_jac1', 'DK.BridgeVec.SDevice_constraints_jac0',
-            'DK.BridgeVec.SDevice_constraints_jac1', 'DK.BridgeVec.SDevice_constraints_jac4', 'DK.BridgeVec.SDevice_constraints_soc']   # T1v: the exported `jac` closures
+            'DK.BridgeVec.SDevice_constraints_jac1', 'DK.BridgeVec.SDevice_constraints_jac4', 'DK.BridgeVec.SDevice_constraints_soc'] + ['DK.BridgeSets.Device_constraints', 'DK.BridgeSets.SDevice_constraints']   # T1v: the exported `jac` closures
   theorems = ['DK.C06.device_jac_affine', 'DK.C06.device_jac_isGrad', 'DK.C06.cbound_jac_support',
               'DK.C06.sdevice_jac_isGrad', 'DK.C06.soc_jac_support', 'DK.C06.soc_jac_affine', 'DK.C06.leaf_jac_isGrad',
               'DK.C06.toM_isMGrad', 'DK.C06.toM_jac_support', 'DK.C06.overConduits_jac_tiled', 'DK.C06.overConduits_isMGrad',
